@@ -8,10 +8,11 @@ P = "UscxmlVerif.Properties.C02."
 THEOREMS = [
     (P + "configuration_is_a_set_of_real_states_partial", "proved", "PARTIAL (2 of the 6 clauses of legality): for every chart, both engine models and every sequence of API operations the configuration is strictly ascending in document order, duplicate-free and holds no <history>/<initial> pseudo-state. Root active, parent closure, one child per compound / all children of a parallel, an atomic state: not proved (false of the code on charts with nested histories - finding hist-shared), decided per run"),
     (P + "root_is_never_exited_partial", "proved", "PARTIAL (half of clause 1): a step of either engine never removes the root from the configuration, on any chart"),
+    (P + "exiting_never_orphans_partial", "proved", "PARTIAL (exit half of the parent clause): for every well-formed document, removing the exit set LargeMicroStep computed from a parent-closed configuration leaves a parent-closed configuration"),
     (P + "step_keeps_set", "proved", "one step of either engine keeps that invariant from any state that has it"),
 ]
 FINISH = {"level": "exploration"}   # the four structural clauses of legality are decided by exploration only
-LEAN_FILES = ["UscxmlVerif.Properties.C02", "UscxmlVerif.Proofs.CfgInv", "UscxmlVerif.Proofs.Root"]
+LEAN_FILES = ["UscxmlVerif.Properties.C02", "UscxmlVerif.Proofs.CfgInv", "UscxmlVerif.Proofs.Root", "UscxmlVerif.Proofs.ExitClosed"]
 
 
 def cfgs_of(tokens):
